@@ -90,6 +90,14 @@ var numExtra = []NumSpec{
 	{"maxf64", func() cty.Value { return cty.NumberFloatVal(math.MaxFloat64) }},
 	{"2^1024", func() cty.Value { return bigIntNum(pow2(1024)) }},
 	{"1.5@24", func() cty.Value { return numPrec("1.5", 24) }},
+	// short mantissas with exponents outside (or at the edge of) the float64 range
+	{"1.5*2^-1100", func() cty.Value { return cty.NumberVal(new(big.Float).SetMantExp(big.NewFloat(1.5), -1100)) }},
+	{"-1.5*2^-1100", func() cty.Value { return cty.NumberVal(new(big.Float).SetMantExp(big.NewFloat(-1.5), -1100)) }},
+	{"(2^52+1)*2^-1126", func() cty.Value {
+		return cty.NumberVal(new(big.Float).SetMantExp(new(big.Float).SetInt64(1<<52+1), -1126))
+	}},
+	{"minsubnormal", func() cty.Value { return cty.NumberFloatVal(math.SmallestNonzeroFloat64) }},
+	{"1.5*2^1100", func() cty.Value { return cty.NumberVal(new(big.Float).SetMantExp(big.NewFloat(1.5), 1100)) }},
 }
 
 func numAlphabet(thorough bool) []NumSpec {
